@@ -259,6 +259,8 @@ struct Tie {
     n_newton_steps: usize,
     n_newton_direct: usize,
     undetermined_steps: usize,
+    guarded_newton_steps: usize,
+    newton_goals_skipped_guard: usize,
     max_step_goals: usize,
 }
 
@@ -276,6 +278,11 @@ fn rmat(m: &[Vec<f64>]) -> String {
 #[allow(clippy::too_many_arguments)]
 fn newton_goals(w: &[f64], y: &[f64], p: &[f64], d: &[f64], dphi: &[Vec<f64>], err_impl: Option<f64>, tpd_impl: Option<f64>, meta: Value, tie: &mut Tie) {
     let n = w.len();
+    if w.iter().chain(y.iter()).any(|v| *v <= 4.0 * f64::EPSILON) {
+        // the real-valued model TpdC07.newton_grad has no `y > f64::EPSILON` guard: its domain is amounts above the guard
+        tie.newton_goals_skipped_guard += 1;
+        return;
+    }
     let g: Vec<f64> = (0..n).map(|i| w[i].ln() + p[i] - d[i]).collect();
     let grad: Vec<f64> = (0..n).map(|i| w[i].sqrt() * g[i]).collect();
     let delta: Vec<f64> = (0..n).map(|i| 2.0 * (w[i].sqrt() - y[i].sqrt())).collect();
@@ -492,9 +499,14 @@ fn tie_feed<E: Residual>(feed: &State<E>, key: &Value, opts_i: usize, tie: &mut 
                     tie.step_goals.push((v, json!({"key": key, "trial": i, "iteration": k, "kind": "substitution", "accepted_here": last, "y": y, "error": err, "tpd": tpd})));
                 }
             } else {
-                let g: Vec<f64> = (0..n).map(|j| w[j].ln() + p[j] - d[j]).collect();
+                // the Newton step drops ln(y_i) of amounts y_i <= f64::EPSILON (lines 166, 175, 214); the mirror must do the same
+                let gln = |v: f64| if v > f64::EPSILON { v.ln() } else { 0.0 };
+                if w.iter().chain(y.iter()).any(|v| *v <= f64::EPSILON) {
+                    tie.guarded_newton_steps += 1;
+                }
+                let g: Vec<f64> = (0..n).map(|j| gln(w[j]) + p[j] - d[j]).collect();
                 err = (0..n).map(|j| (w[j].sqrt() * g[j]).abs()).sum::<f64>();
-                tpd = 1.0 + (0..n).map(|j| y[j] * (y[j].ln() + p[j] - d[j] - 1.0)).sum::<f64>();
+                tpd = 1.0 + (0..n).map(|j| y[j] * (gln(y[j]) + p[j] - d[j] - 1.0)).sum::<f64>();
                 tie.n_newton_steps += 1;
                 if determined && tie.step_goals.len() < tie.max_step_goals {
                     let dm = (prev.clone().dln_phi_dnj() * Moles::from_reduced(1.0)).into_value();
@@ -1457,7 +1469,8 @@ fn main() {
         "trial_goals": trial_files,
         "step_goals": step_files, "ctrl": ctrl_files, "stab": stab_files, "triv": triv_files,
         "tie": {"feeds_kept": keep_pc.len() + keep_pr.len(), "substitution_steps_seen": tie.n_ss_steps, "newton_steps_seen_inside_minimize_tpd": tie.n_newton_steps,
-                "newton_steps_hooked": tie.n_newton_direct, "steps_consistent_with_both_or_neither_kind_(flag_not_compared)": tie.undetermined_steps, "formula_mismatch": tie.formula_mismatch,
+                "newton_steps_hooked": tie.n_newton_direct, "steps_consistent_with_both_or_neither_kind_(flag_not_compared)": tie.undetermined_steps, "newton_steps_with_an_amount_below_f64_EPSILON_(guard_mirrored_in_the_trace)": tie.guarded_newton_steps, "newton_step_goals_skipped_(amount_below_the_guard,_outside_the_model_domain)": tie.newton_goals_skipped_guard,
+                "formula_mismatch": tie.formula_mismatch,
                 "trial_states_compared_with_the_model_of_define_trial_state": tie.n_trials_compared, "trial_mismatch": tie.trial_mismatch},
         "support": {
             "systems": systems,
